@@ -174,6 +174,15 @@ func (cr *clientRun) doGet(key []byte) {
 // the client's own cache gets the signature of that defect, everything else the
 // soundness (or, over an honest peer, completeness) signature.
 func (cr *clientRun) reportWrong(kind, op string, key []byte, what string, rec opRecord) {
+	if cr.dead || cr.pe.dead {
+		// The response that caused this answer was already reported by the peer's
+		// own interrogation (accepted forged subtree / false pair); this wrong
+		// answer is its consequence in the client, not a separate cause.
+		cr.c.count("wrong_answers/after_reported_forgery", 1)
+		cr.c.count("soundness/client_answers_wrong_after_reported_forgery/"+kind, 1)
+		cr.violation(cr.mismatchSig(kind, op), what+fmt.Sprintf(" (cache %s, peer %s; end-to-end consequence of the accepted forged proof reported for this response)", cr.cap.name, cr.pe.prof.name), rec, nil, "")
+		return
+	}
 	class, detail := "unexplained", "no key to examine"
 	if key != nil {
 		class, detail = cr.c.diagnose(cr.tree, key)
